@@ -1204,7 +1204,13 @@ impl CraneliftCompiler {
     fn prepare_jump_blocks(&mut self, bcx: &mut FunctionBuilder, insn_ptr: usize, insn: &Insn) {
         let insn_ptr = insn_ptr as u32;
         let next_pc: u32 = insn_ptr + 1;
-        let target_pc: u32 = (insn_ptr as isize + insn.off as isize + 1)
+        // EXIT and TAIL_CALL do not jump: their offset field is not an operand (and is not checked by
+        // the verifier), only the block after them matters.
+        let off = match insn.opc {
+            ebpf::EXIT | ebpf::TAIL_CALL => 0,
+            _ => insn.off,
+        };
+        let target_pc: u32 = (insn_ptr as isize + off as isize + 1)
             .try_into()
             .unwrap();
 
